@@ -579,6 +579,43 @@ func pssSaltRule(c *core.Ctx, rule string) {
 // call such as crypto.Hash.New() or hmac.New(...)) — not to one that lives in a struct field or a package variable across
 // calls, unless a Reset() on that value dominates the Write. A hasher kept in the algorithm object makes the second
 // signature cover msg1||msg2: it verifies for bytes that were never signed and fails for the bytes that were.
+// hashFreshValue: is v, on every path, a hash object made by a constructor call within this call tree? A call of a
+// function of this module counts only when each of its own results is fresh (an accessor that hands out a hasher kept
+// in a field is not a constructor); a call that leaves the module (crypto.Hash.New, sha256.New, hmac.New) creates one.
+func hashFreshValue(v ssa.Value, depth int) (bool, string) {
+	fresh := false
+	for _, o := range ssax.Origins(v, nil, 0) {
+		switch {
+		case o.Field != nil || o.Global != nil || o.Param != nil:
+			return false, o.String()
+		case o.Call != nil || o.CallV != nil:
+			var callee *ssa.Function
+			if cl, ok := o.CallV.(*ssa.Call); ok {
+				callee = cl.Common().StaticCallee()
+			}
+			if callee != nil && len(callee.Blocks) > 0 && callee.Pkg != nil && strings.HasPrefix(callee.Pkg.Pkg.Path(), "github.com/gopcua/opcua") {
+				if depth >= 4 {
+					return false, "call " + callee.String() + " (depth)"
+				}
+				idx := 0
+				if ex, ok := ssax.Strip(v).(*ssa.Extract); ok {
+					idx = ex.Index
+				}
+				for _, r := range ssax.Returns(callee) {
+					if idx >= len(r.Results) {
+						continue
+					}
+					if ok, w := hashFreshValue(r.Results[idx], depth+1); !ok {
+						return false, "result of " + callee.String() + ": " + w
+					}
+				}
+			}
+			fresh = true
+		}
+	}
+	return fresh, ""
+}
+
 func hashFreshRule(c *core.Ctx, rule string) {
 	n := 0
 	for _, f := range libFns(c, "uapolicy") {
@@ -592,17 +629,9 @@ func hashFreshRule(c *core.Ctx, rule string) {
 				continue
 			}
 			n++
-			fresh := false
-			where := ssax.Path(cc.Value)
-			for _, o := range ssax.Origins(cc.Value, nil, 0) {
-				if o.Call != nil || o.CallV != nil {
-					fresh = true
-				}
-				if o.Field != nil || o.Global != nil || o.Param != nil {
-					fresh = false
-					where = o.String()
-					break
-				}
+			fresh, where := hashFreshValue(cc.Value, 0)
+			if where == "" {
+				where = ssax.Path(cc.Value)
 			}
 			reset := false
 			for _, c2 := range ssax.Calls(f) {
